@@ -185,6 +185,8 @@ bool small_for_arith(const B &b)
 
 bool nonfinite_double_inside(const B &b);
 bool tree_canonical(const B &b, int depth);
+void stored_children(const Basic &b, vec_basic &out);
+bool too_big(const B &b, size_t cap);
 
 // ---- mode B: program -> object
 B build(FuzzedDataProvider &fdp)
@@ -435,7 +437,7 @@ B build(FuzzedDataProvider &fdp)
         } catch (std::exception &) {
             continue;
         }
-        if (!r.is_null())
+        if (!r.is_null() && !too_big(r, 2000)) // keep every register small as a tree: later steps walk it
             reg.push_back(r);
     }
     return reg.back();
@@ -631,9 +633,40 @@ bool has_rounding_node(const B &b)
     return false;
 }
 
+// Size of the object seen as a TREE (shared nodes counted at every reference), capped.  Sharing makes a DAG of n nodes
+// stand for a tree of up to 2^n nodes; printing, diff and subs walk the tree, so their cost is not bounded by the input
+// size ("billion laughs").  That is slowness, not a failure: such objects are counted and left alone.
+size_t tree_size(const B &b, std::map<const Basic *, size_t> &memo, size_t cap)
+{
+    auto it = memo.find(b.get());
+    if (it != memo.end())
+        return it->second;
+    size_t n = 1;
+    vec_basic ch;
+    stored_children(*b, ch);
+    for (auto &c : ch) {
+        n += tree_size(c, memo, cap);
+        if (n > cap) {
+            n = cap + 1;
+            break;
+        }
+    }
+    memo[b.get()] = n;
+    return n;
+}
+bool too_big(const B &b, size_t cap)
+{
+    std::map<const Basic *, size_t> memo;
+    return tree_size(b, memo, cap) > cap;
+}
+
 // ---- post-load operations: none may crash
 void exercise(const B &b, fz::Stats &st)
 {
+    if (too_big(b, 4000)) {
+        st.exclude("loaded_tree_above_4000_nodes");
+        return;
+    }
     // KF-C20-01 (same root cause as KF-C18-03): re-evaluating Floor/Ceiling/Truncate of a non-finite double gives it to
     // mpz_set_d (SIGFPE).  Excluded by construction while the finding is open.
     if (st.tag("floor_nonfinite_double") && has_rounding_node(b) && nonfinite_double_inside(b)) {
@@ -1154,6 +1187,10 @@ extern "C" int LLVMFuzzerTestOneInput(const uint8_t *data, size_t size)
         obj = build(fdp);
     } catch (std::exception &) {
         st.count("build_throws");
+        return 0;
+    }
+    if (too_big(obj, 2000)) {
+        st.count("build_tree_above_2000_nodes");
         return 0;
     }
     std::string bytes;
